@@ -452,6 +452,14 @@ theorem skip_decision_spec (content : Bytes) (max : Nat) (allow : Bool) (u : Lis
       else if u.length > max then 4 else 0 :=
   docCheck_spec content max allow u hu hmem
 
+/-- **doccheck_reuse_independent.** A `DocChecker` is reused for every document of a `Builder`; its trigram set survives
+    between calls. Whatever the set holds — after a document rejected by the early return, after calls with other limits —
+    the verdict on the next document is the verdict of a fresh checker: for every history `st` and every sequence of
+    (content, limit, exempt) calls on one checker, the results are those of `docCheck` call by call. -/
+theorem doccheck_reuse_independent (st : List Nat) (docs : List (Bytes × Nat × Bool)) :
+    checkSeq st docs = docs.map fun d => docCheck d.1 d.2.1 d.2.2 :=
+  checkSeq_stateless docs st
+
 /-- one posting list: the bytes appended for increasing rune offsets decode to exactly those offsets -/
 theorem postings_roundtrip (offs : List Nat) (h : Increasing 0 offs) :
     fromDeltas (pushAll PL.empty offs).data = some (u32s offs) :=
@@ -482,6 +490,7 @@ example : (match SB.addAll exRepo (SB.new PB.fresh PB.fresh) exDocs with | .ok _
 example : exRepo.branches.Nodup ∧ exRepo.branches.length ≤ 64 := by decide
 example : Denotes [0xC3, 0xA9, 0x61] 5 2 6 := by unfold Denotes; decide
 example : docCheck [97, 98, 99, 100, 101] 2 false = 4 ∧ docCheck [97, 97, 97, 97, 97] 2 false = 0 := by decide
+example : checkSeq [] [([97, 98, 99, 100, 101], 2, false), ([97, 97, 97, 97, 97], 2, false)] = [4, 0] := by decide
 example : Increasing 0 [0, 5, 300] := by simp [Increasing]
 example : rejected ⟨[98], [0, 1], [], [], [], [], 0, 1, 0, [], []⟩ = true := by decide
 
